@@ -1,6 +1,7 @@
 package sender
 
 import (
+	"fmt"
 	"io"
 	"path/filepath"
 	"strings"
@@ -47,6 +48,11 @@ func RecvFilterList(c *rsyncwire.Conn) (*filterRuleList, error) {
 		}
 		if length == exclusionListEnd {
 			break
+		}
+		// rsync/exclude.c:recv_filter_list: overflow check
+		const maxFilterLen = 4096 + 3
+		if length < 0 || length >= maxFilterLen {
+			return nil, fmt.Errorf("overflow: filter rule length %d", length)
 		}
 		line := make([]byte, length)
 		if _, err := io.ReadFull(c.Reader, line); err != nil {
